@@ -678,12 +678,10 @@ func (node *TopNode) getParts(src *syntax.CallStm,
 			if err != nil {
 				// The forks of a call which is mapped over the merged output
 				// of another mapped call are identified by that call.
-				if set, ok := parts[0].Split.Source.(*syntax.MapCallSet); ok {
-					for _, c := range node.wholeNodeCalls(set) {
-						if lp, lerr := fork.forkId.matchPart(c); lerr == nil {
-							p, err = lp, nil
-							break
-						}
+				for _, c := range node.wholeNodeCalls(parts[0].Split.Source) {
+					if lp, lerr := fork.forkId.matchPart(c); lerr == nil {
+						p, err = lp, nil
+						break
 					}
 				}
 			}
@@ -1096,8 +1094,8 @@ func (node *Node) lockstepIndices(ref map[*syntax.CallStm]syntax.CollectionIndex
 		// The other way around: this root is itself mapped over the merged
 		// output of another root, for which the fork has a part.
 		if sp := root.Split(); sp != nil {
-			if set, ok := sp.Source.(*syntax.MapCallSet); ok {
-				for _, otherCall := range node.top.wholeNodeCalls(set) {
+			{
+				for _, otherCall := range node.top.wholeNodeCalls(sp.Source) {
 					if otherCall == call {
 						continue
 					}
@@ -1124,23 +1122,7 @@ func (node *Node) lockstepIndices(ref map[*syntax.CallStm]syntax.CollectionIndex
 			if part.Split == nil || part.Id.IndexSource() != nil {
 				continue
 			}
-			set, ok := part.Split.Source.(*syntax.MapCallSet)
-			if !ok {
-				continue
-			}
-			found := false
-			for _, src := range set.Sources {
-				switch src := src.(type) {
-				case *syntax.BoundReference:
-					found = src.Exp != nil && src.Exp.Id == fqid &&
-						src.Exp.OutputId == ""
-				case *syntax.RefExp:
-					found = src.Id == fqid && src.OutputId == ""
-				}
-				if found {
-					break
-				}
-			}
+			found := sourceIsMergedOutputOf(part.Split.Source, fqid)
 			if found {
 				if result == nil {
 					result = make(map[*syntax.CallStm]syntax.CollectionIndex,
@@ -1188,11 +1170,7 @@ func (node *Node) lockstepParts(id ForkId) ForkId {
 			if sp == nil {
 				break
 			}
-			set, ok := sp.Source.(*syntax.MapCallSet)
-			if !ok {
-				break
-			}
-			for _, c := range node.top.wholeNodeCalls(set) {
+			for _, c := range node.top.wholeNodeCalls(sp.Source) {
 				if c != part.Split.Call && have(c) {
 					if len(result) == len(id) {
 						result = append(make(ForkId, 0, len(id)+1), id...)
@@ -1215,45 +1193,56 @@ func (node *Node) lockstepParts(id ForkId) ForkId {
 	return result
 }
 
-// wholeNodeCalls returns the calls of the nodes whose whole (merged) output is
-// one of the sources in the set, i.e. the calls with which a call that has
-// this set as its source iterates in lockstep.
-func (node *TopNode) wholeNodeCalls(set *syntax.MapCallSet) []*syntax.CallStm {
-	var result []*syntax.CallStm
-	for _, src := range set.Sources {
-		var ref *syntax.RefExp
-		switch src := src.(type) {
-		case *syntax.BoundReference:
-			ref = src.Exp
-		case *syntax.RefExp:
-			ref = src
+// mergedOutputNodeIds returns the IDs of the nodes whose whole (merged) output
+// the given map call source is, i.e. of the mapped calls with which a call
+// that has this source iterates in lockstep.
+func mergedOutputNodeIds(src syntax.MapCallSource, result []string) []string {
+	switch src := src.(type) {
+	case *syntax.BoundReference:
+		if src.Exp != nil && src.Exp.OutputId == "" {
+			result = append(result, src.Exp.Id)
 		}
-		if ref == nil || ref.OutputId != "" {
-			continue
+	case *syntax.RefExp:
+		if src.OutputId == "" {
+			result = append(result, src.Id)
 		}
-		if n := node.allNodes[ref.Id]; n != nil {
-			result = append(result, n.call.Call())
+	case *syntax.MergeExp:
+		if src.Call != nil {
+			result = append(result, src.Call.GetFqid())
+		}
+		if src.MergeOver != nil {
+			result = mergedOutputNodeIds(src.MergeOver, result)
+		}
+	case *syntax.MapCallSet:
+		for _, s := range src.Sources {
+			result = mergedOutputNodeIds(s, result)
 		}
 	}
 	return result
 }
 
-// setRefersTo returns true if the set of sources contains the whole output of
-// the node with the given ID.
-func setRefersTo(set *syntax.MapCallSet, fqid string) bool {
-	for _, src := range set.Sources {
-		switch src := src.(type) {
-		case *syntax.BoundReference:
-			if src.Exp != nil && src.Exp.Id == fqid && src.Exp.OutputId == "" {
-				return true
-			}
-		case *syntax.RefExp:
-			if src.Id == fqid && src.OutputId == "" {
-				return true
-			}
+// sourceIsMergedOutputOf returns true if the map call source is the merged
+// output of the node with the given ID.
+func sourceIsMergedOutputOf(src syntax.MapCallSource, fqid string) bool {
+	for _, id := range mergedOutputNodeIds(src, nil) {
+		if id == fqid {
+			return true
 		}
 	}
 	return false
+}
+
+// wholeNodeCalls returns the calls of the nodes whose whole (merged) output
+// the given source is, i.e. the calls with which a call that has this source
+// iterates in lockstep.
+func (node *TopNode) wholeNodeCalls(src syntax.MapCallSource) []*syntax.CallStm {
+	var result []*syntax.CallStm
+	for _, id := range mergedOutputNodeIds(src, nil) {
+		if n := node.allNodes[id]; n != nil {
+			result = append(result, n.call.Call())
+		}
+	}
+	return result
 }
 
 // Find all of the forks for which the given fork could match a more-constrained
